@@ -713,6 +713,11 @@ func TestVP_C41_Hang(t *testing.T) {
 					dials[i].host, dials[i].timeout, dials[i].delay = 0, vpC41OccupantTimeout, 0
 				} else {
 					dials[i].delay = time.Duration(40+rapid.IntRange(0, 40).Draw(t, "victimDelayMs")) * time.Millisecond
+					if rapid.Bool().Draw(t, "patientVictim") {
+						// a victim that outlasts the occupants: it gets a slot after ~1.2 s and must then only
+						// use what is LEFT of its own timeout for the (hanging) connect, not a fresh full one
+						dials[i].host, dials[i].timeout = 0, vpC41OccupantTimeout+300*time.Millisecond
+					}
 				}
 			}
 		}
